@@ -65,6 +65,8 @@ def run(ctx):
     r4_cleanup(ctx, fn)
     r5_limit(ctx, fn)
     r6_inprocess(ctx, fn)
+    r7_nothing_swallowed(ctx)
+    r8_report_channel(ctx)
 
 
 def _line(fn, name):
@@ -355,7 +357,105 @@ def r6_inprocess(ctx, fn):
     ctx.ob("C08.R6", PMP, "Foreach.filter", fe, "Foreach applies the filter item by item and yields every output", ok, stmt="Foreach")
 
 
+def r8_report_channel(ctx):
+    """The worker reports (exception, traceback, poisoned) to the parent through a one-shot Pipe.  For "the call terminates and raises that error" the
+    report must always arrive: whatever the filter raised must be caught and sent, the send must not block for ever, and the parent must be able to
+    rebuild what was sent."""
+    ctx.rule("C08.R8", "the worker's failure report always arrives: (a) the parent receives the report before (or while) it waits for the worker to exit -- a report "
+                       "larger than the pipe buffer otherwise blocks the child in send() while the parent blocks in join(); (b) what is sent can always be unpickled "
+                       "(the exception is not sent as a bare object of an arbitrary user class); (c) every exception the filter can raise, BaseExceptions included, "
+                       "reaches a handler that reports it")
+    j = ctx.fn(LNS, "ProcessLine.join")
+    order = [("join" if unparse(c.func) == "super().join" else "recv") for c in walk_shallow(j) if isinstance(c, ast.Call) and unparse(c.func) in ("super().join", "self._get_result")]
+    ctx.ob("C08.R8", LNS, "ProcessLine.join", j, "the report is received before the parent waits for the worker process to exit", order[:1] == ["recv"], detail={"order": order}, stmt="receive before join")
+    run_ = ctx.fn(LNS, "ProcessLine.run")
+    sends = [c for c in walk_shallow(run_) if isinstance(c, ast.Call) and unparse(c.func) == "self._send.send"]
+    ctx.floor("C08.R8", "report sends in ProcessLine.run", len(sends), 1)
+    for c in sends:
+        first = c.args[0].elts[0] if c.args and isinstance(c.args[0], ast.Tuple) else None
+        raw = isinstance(first, ast.Name) and any(isinstance(x, ast.Assign) and any(isinstance(t, ast.Tuple) and unparse(t.elts[0]) == first.id for t in x.targets)
+                                                   and isinstance(x.value, ast.Tuple) and isinstance(x.value.elts[0], ast.Name) for x in ast.walk(run_))
+        ctx.ob("C08.R8", LNS, "ProcessLine.run", c, "the exception is sent in a form the parent can always rebuild (not the bare user exception object)", not raw,
+               detail={"sent": unparse(first) if first is not None else None}, stmt="report is always unpicklable")
+    tries = [t for t in walk_shallow(run_) if isinstance(t, ast.Try)]
+    caught = sorted({unparse(e) for t in tries for h in t.handlers for e in ((h.type.elts if isinstance(h.type, ast.Tuple) else [h.type]) if h.type is not None else [ast.Name("BaseException")])})
+    ok = "BaseException" in caught or {"Exception", "KeyboardInterrupt", "SystemExit", "GeneratorExit"} <= set(caught)
+    ctx.ob("C08.R8", LNS, "ProcessLine.run", tries[0] if tries else run_, "SystemExit / GeneratorExit raised by the filter are reported like any other exception", ok,
+           detail={"caught": caught}, stmt="all BaseExceptions reported")
+
+
+def peek_emptiness(ctx, rule, prefixes=("coba/",)):
+    """`first, rest = peek_first(stream)`: an empty stream is recognised by `rest` (falsy when empty); the value of the first item says nothing
+    (a legal first item may be None / 0 / '' / {})."""
+    n = 0
+    for (rel, qual), fn in sorted(ctx.model.functions.items()):
+        if rel.startswith("coba/tests") or not rel.startswith(tuple(prefixes)):
+            continue
+        firsts = set()
+        for x in walk_shallow(fn):
+            if isinstance(x, ast.Assign) and isinstance(x.value, ast.Call) and call_name(x.value) == "peek_first" and isinstance(x.targets[0], ast.Tuple) \
+                    and len(x.targets[0].elts) == 2 and isinstance(x.targets[0].elts[0], ast.Name) and not any(k.arg == "n" for k in x.value.keywords) and len(x.value.args) == 1:
+                firsts.add(x.targets[0].elts[0].id)
+                n += 1
+        firsts.discard("_")
+        if not firsts:
+            continue
+        for x in walk_shallow(fn):
+            if isinstance(x, (ast.If, ast.IfExp, ast.While)):
+                t = x.test
+                bad = None
+                for c in ast.walk(t):
+                    if isinstance(c, ast.Compare) and len(c.ops) == 1 and isinstance(c.ops[0], (ast.Is, ast.IsNot, ast.Eq, ast.NotEq)) and isinstance(c.left, ast.Name) and c.left.id in firsts \
+                            and isinstance(c.comparators[0], ast.Constant) and c.comparators[0].value is None:
+                        bad = c
+                    if isinstance(c, ast.UnaryOp) and isinstance(c.op, ast.Not) and isinstance(c.operand, ast.Name) and c.operand.id in firsts:
+                        bad = c
+                if isinstance(t, ast.Name) and t.id in firsts:
+                    bad = t
+                if bad is not None:
+                    returns_empty = any(isinstance(r, ast.Return) for r in (ast.walk(x) if isinstance(x, ast.If) else []))
+                    if returns_empty or isinstance(x, ast.IfExp):
+                        ctx.ob(rule, rel, qual, x, "an empty stream is recognised by the stream peek_first returns, not by the value of the first item", False,
+                               detail={"test": unparse(t)})
+    return n
+
+
+def r7_nothing_swallowed(ctx):
+    ctx.rule("C08.R7", "no failure and no item disappears quietly: in ProcessLine.run / ThreadLine.run every handler around the line reports the exception it caught "
+                       "(none of them reports None); CobaMultiprocessor.filter (and every other caller of peek_first) decides emptiness from the returned stream, "
+                       "not from the first item's value")
+    for qual in ("ProcessLine.run", "ThreadLine.run"):
+        fn = ctx.fn(LNS, qual)
+        tries = [t for t in walk_shallow(fn) if isinstance(t, ast.Try) and any(isinstance(c, ast.Call) and unparse(c.func) == "self._line.run" for st in t.body for c in ast.walk(st))]
+        ctx.floor("C08.R7", f"try around self._line.run() in {qual}", len(tries), 1)
+        for t in tries:
+            for h in t.handlers:
+                bound = h.name
+                stores = [x for x in ast.walk(h) if isinstance(x, ast.Assign)]
+                vals = []
+                for x in stores:
+                    for tg in x.targets:
+                        if isinstance(tg, ast.Tuple) and isinstance(x.value, ast.Tuple) and len(tg.elts) == len(x.value.elts):
+                            vals.append((unparse(tg.elts[0]), x.value.elts[0]))
+                        elif not isinstance(tg, ast.Tuple):
+                            vals.append((unparse(tg), x.value))
+                exs = [(n_, v) for n_, v in vals if n_ in ("ex", "self._exception")]
+                ok = bool(bound) and bool(exs) and all(not (isinstance(v, ast.Constant) and v.value is None) for _, v in exs)
+                ctx.ob("C08.R7", LNS, qual, h, f"the handler for {unparse(h.type) if h.type else 'everything'} reports the exception it caught", ok,
+                       detail={"reported": [unparse(v)[:60] for _, v in exs]}, stmt=f"{qual} handler {unparse(h.type) if h.type else '*'}")
+    n = peek_emptiness(ctx, "C08.R7", prefixes=("coba/multiprocessing.py", "coba/pipes/"))
+    ctx.floor("C08.R7", "peek_first unpackings examined", n, 1)
+    cm = ctx.fn("coba/multiprocessing.py", "CobaMultiprocessor.filter")
+    empties = [x for x in walk_shallow(cm) if isinstance(x, ast.If) and any(isinstance(r, ast.Return) for r in ast.walk(x))]
+    rest = [x.targets[0].elts[1].id for x in walk_shallow(cm) if isinstance(x, ast.Assign) and isinstance(x.value, ast.Call) and call_name(x.value) == "peek_first" and isinstance(x.targets[0], ast.Tuple)]
+    ok = bool(rest) and any(unparse(e.test) == f"not {rest[0]}" for e in empties)
+    ctx.ob("C08.R7", "coba/multiprocessing.py", "CobaMultiprocessor.filter", empties[0] if empties else cm, "the early return for an empty stream tests the peeked stream", ok, stmt="empty stream test")
+
+
 CONTROLS = [
+    ("worker swallows EOFError of the filter", LNS, M.replace_stmt("ProcessLine.run", lambda st: isinstance(st, ast.Try),
+        "try:\n    self._line.run()\nexcept (EOFError, BrokenPipeError):\n    ex, tb = None, None\nexcept Exception as e:\n    ex, tb = e, format_tb(e.__traceback__)\nexcept KeyboardInterrupt as e:\n    ex, tb = e, None\nelse:\n    ex, tb = None, None"), "C08.R7"),
+    ("first item None means empty", "coba/multiprocessing.py", M.chain(M.replace_expr("CobaMultiprocessor.filter", "_", "first", nth=0), M.replace_expr("CobaMultiprocessor.filter", "not items", "first is None")), "C08.R7"),
     ("one pill only", PMP, M.replace_expr("Multiprocessor.filter", "[self._poison] * self._n_procs", "[self._poison]"), "C08.R2"),
     ("pill without zero test", PMP, M.replace_expr("Multiprocessor.filter", "self._n_procs == 0", "True"), "C08.R2"),
     ("swallow worker errors", PMP, M.replace_stmt("Multiprocessor.filter", M.text_has("if self._exceptions"), "pass", nth=0), "C08.R3"),
